@@ -1,6 +1,5 @@
-(* RouterCacheSweep.v — a boolean coherence test that implies [Coherent], and a complete sweep
-   of renumbering after every history of length <= 2 over a 54-operation alphabet
-   (2 source nets + a fresh number, 3 routers, 4 destinations). *)
+(* RouterCacheSweep.v — a boolean coherence test that implies [Coherent] (the bounded sweep of
+   renumbering that used it is superseded by RouterCacheRenum.renumber_ok). *)
 From Bac Require Import Base RouterCache RouterCacheFacts.
 Open Scope Z_scope.
 
@@ -32,29 +31,3 @@ Proof.
     specialize (Hr _ Hg). cbn [fst snd] in Hr. apply andb_true_iff in Hr. tauto.
 Qed.
 
-Definition sweep_alphabet : list op :=
-  flat_map (fun sn => flat_map (fun a =>
-      map (fun d => Learn sn a [d] 0) [10; 11; 12; 13]
-      ++ [Learn sn a [10; 11] 0; Learn sn a [12; 13] 0; Forget sn (Some a) None]) [1; 2; 3]
-    ++ map (fun d => Forget sn None (Some [d])) [10; 11; 12; 13]) [1; 2]
-  ++ [Renum 1 2; Renum 2 1; Renum 1 3; Renum 3 1].
-Definition sweep_renums : list op := [Renum 1 2; Renum 2 1; Renum 1 3; Renum 3 1; Renum 1 1; Renum 2 3].
-Definition sweep_histories : list (list op) :=
-  [] :: map (fun a => [a]) sweep_alphabet
-  ++ flat_map (fun a => map (fun b => [a; b]) sweep_alphabet) sweep_alphabet.
-
-Definition renum_ok (h : list op) (r : op) : bool :=
-  match step (run empty h) r with Ok s' => coh_b s' | Err _ => false end.
-
-Lemma sweep_renumber_computed :
-  forallb (fun h => forallb (renum_ok h) sweep_renums) sweep_histories = true.
-Proof. vm_compute. reflexivity. Qed.
-
-Lemma sweep_renumber : forall h r, In h sweep_histories -> In r sweep_renums ->
-  exists s', step (run empty h) r = Ok s' /\ Coherent s'.
-Proof.
-  intros h r Hh Hr. pose proof sweep_renumber_computed as H.
-  rewrite forallb_forall in H. specialize (H h Hh). rewrite forallb_forall in H. specialize (H r Hr).
-  unfold renum_ok in H. destruct (step (run empty h) r) as [s'|e]; [|discriminate].
-  exists s'. split; [reflexivity|]. apply coh_b_sound. exact H.
-Qed.
